@@ -1,12 +1,12 @@
 //@ target: crates/erbium-core/src/dns/dnspkt.rs
 //@ package: erbium-core
-//@ harness: get_expiry_shape_000 bounded(sections=0/0/0) props=C06,C05
-//@ harness: get_expiry_shape_100 bounded(sections=1/0/0,ttl=any-u32) props=C06,C05
-//@ harness: get_expiry_shape_010 bounded(sections=0/1/0,ttl=any-u32) props=C06,C05
-//@ harness: get_expiry_shape_001 bounded(sections=0/0/1,ttl=any-u32) props=C06,C05
-//@ harness: get_expiry_shape_111 bounded(sections=1/1/1,ttl=any-u32) props=C06,C05
-//@ harness: get_expiry_shape_210 bounded(sections=2/1/0,ttl=any-u32) props=C06,C05
-//@ harness: get_expiry_shape_022 bounded(sections=0/2/2,ttl=any-u32) props=C06,C05
+//@ harness: get_expiry_shape_000 bounded(sections=0/0/0) props=C06,C05,C03
+//@ harness: get_expiry_shape_100 bounded(sections=1/0/0,ttl=any-u32) props=C06,C05,C03
+//@ harness: get_expiry_shape_010 bounded(sections=0/1/0,ttl=any-u32) props=C06,C05,C03
+//@ harness: get_expiry_shape_001 bounded(sections=0/0/1,ttl=any-u32) props=C06,C05,C03
+//@ harness: get_expiry_shape_111 bounded(sections=1/1/1,ttl=any-u32) props=C06,C05,C03
+//@ harness: get_expiry_shape_210 bounded(sections=2/1/0,ttl=any-u32) props=C06,C05,C03
+//@ harness: get_expiry_shape_022 bounded(sections=0/2/2,ttl=any-u32) props=C06,C05,C03
 //@ harness: edns_get_opt_contract bounded(options<=2,code=any-u16) props=C05
 // Bounded stand-ins (iterator-adapter bodies are outside Verus): they back the contracts that unit `cache`
 // (DNSPkt::get_expiry) and unit `dnsparse` (EdnsData::get_opt) assume.  Shapes are concrete, TTLs fully symbolic.
